@@ -430,10 +430,11 @@ def rule_config(ctx) -> None:
     def btf(name, enum, hidden=False, at_reset=False):
         return MObj(_btf=name, name=name, hidden=hidden, _enum=enum, _val=0 if at_reset else 5, _reset=0, width=4)
 
-    def reg(name, hexv, fields=(), as_hex=False):
-        return MObj(_reg=name, name=name, _hex=hexv, _bitfields=tuple(fields), config_as_hexstring=as_hex, _val=7, _reset=0)
-    regs = (reg("R_PLAIN", "0x12"), reg("R_HEXSTR", "ab12", as_hex=True),
-            reg("R_FIELDS", "0x0", [btf("A", "EN_A"), btf("B_HIDDEN_AT_RESET", "0x0", hidden=True, at_reset=True), btf("C", "0x3"), btf("D_HIDDEN_SET", "0x1", hidden=True)]))
+    def reg(name, hexv, fields=(), as_hex=False, hidden=False, at_reset=False):
+        return MObj(_reg=name, name=name, _hex=hexv, _bitfields=tuple(fields), config_as_hexstring=as_hex, _val=0 if at_reset else 7, _reset=0, hidden=hidden)
+    regs = (reg("R_PLAIN", "0x12"), reg("R_HEXSTR", "ab12", as_hex=True), reg("R_HIDDEN_AT_RESET", "0x0", hidden=True, at_reset=True), reg("R_VISIBLE_AT_RESET", "0x0", at_reset=True),
+            reg("R_FIELDS", "0x0", [btf("A", "EN_A"), btf("B_HIDDEN_AT_RESET", "0x0", hidden=True, at_reset=True), btf("C", "0x3"), btf("D_HIDDEN_SET", "0x1", hidden=True)]),
+            reg("R_HIDDEN_SET", "0x7", hidden=True))
 
     def cv(c: ast.Call, ev):
         f = norm(c.func)
@@ -488,15 +489,17 @@ def rule_config(ctx) -> None:
     except _oe.Unsupported as ex:
         raise AnalysisError(f"C11.config-keys: get_config left the fragment: {ex}")
     cfg = out.value if out.kind == "return" else None
-    want_cfg = {"R_PLAIN": "0x12", "R_HEXSTR": "ab12", "R_FIELDS": {"A": "EN_A", "C": "0x3", "D_HIDDEN_SET": "0x1"}}
-    chk.decide(cfg == want_cfg, "C11.config-keys", gc.qual, "configuration holds per register a hex string or {bit-field name: enum/hex value}; a hidden bit-field appears only when it differs from its reset value", f"{cfg}", f"{want_cfg}", A.loc(REG, gc.node))
+    want_cfg = {"R_PLAIN": "0x12", "R_HEXSTR": "ab12", "R_VISIBLE_AT_RESET": "0x0", "R_FIELDS": {"A": "EN_A", "C": "0x3", "D_HIDDEN_SET": "0x1"}, "R_HIDDEN_SET": "0x7"}
+    chk.decide(cfg == want_cfg, "C11.config-keys", gc.qual, "configuration holds per register a hex string or {bit-field name: enum/hex value}; a hidden register or bit-field appears only when it differs from its reset value", f"{cfg}", f"{want_cfg}", A.loc(REG, gc.node))
     del log[:]
     try:
         out2 = _oe.Evaluator({"self": me, "yml_data": dict(want_cfg)}, None, opaque_return=False, call_value=ctx.model_calls(cv)).run(A.body_of(ld.node))
     except _oe.Unsupported as ex:
         raise AnalysisError(f"C11.config-keys: _load_yml_config left the fragment: {ex}")
-    want_log = [("find_reg", "R_PLAIN"), ("set_value", "R_PLAIN", ("INT", "0x12"), False), ("find_reg", "R_HEXSTR"), ("set_value", "R_HEXSTR", ("INT16", "ab12"), False), ("find_reg", "R_FIELDS"),
-                ("set_enum_value", "A", "EN_A", True), ("set_enum_value", "C", "0x3", True), ("set_enum_value", "D_HIDDEN_SET", "0x1", True), ("set_value", "R_FIELDS", 7, False)]
+    want_log = [("find_reg", "R_PLAIN"), ("set_value", "R_PLAIN", ("INT", "0x12"), False), ("find_reg", "R_HEXSTR"), ("set_value", "R_HEXSTR", ("INT16", "ab12"), False),
+                ("find_reg", "R_VISIBLE_AT_RESET"), ("set_value", "R_VISIBLE_AT_RESET", ("INT", "0x0"), False), ("find_reg", "R_FIELDS"),
+                ("set_enum_value", "A", "EN_A", True), ("set_enum_value", "C", "0x3", True), ("set_enum_value", "D_HIDDEN_SET", "0x1", True), ("set_value", "R_FIELDS", 7, False),
+                ("find_reg", "R_HIDDEN_SET"), ("set_value", "R_HIDDEN_SET", ("INT", "0x7"), False)]
     chk.decide(out2.kind != "raise" and log == want_log, "C11.config-keys", ld.qual, "loader reads both forms: bit-field dictionaries through set_enum_value(value, raw=True) and scalars through set_value(value, raw=False), prefix-less hex strings with base 16",
                f"{out2.kind}: {log}"[:400], f"{want_log}"[:300], A.loc(REG, ld.node))
     chk.decide(log[:1] == [("find_reg", "R_PLAIN")], "C11.config-keys", ld.qual + " lookup", "register looked up by the configuration key", f"{log[:1]}", "", A.loc(REG, ld.node))
